@@ -522,7 +522,7 @@ def observe_dbscan(job):
         tries += 1                 # a pair too close to the threshold: regenerate
     n = len(ra)
     rec.update(n=n, flux=[int(f) for f in flux], adj=adj, farmin=farmin,
-               eps_uas=common.fx(eps_arcmin * 60.0, 1e6), tries=tries)
+               eps_mas=common.fx(eps_arcmin * 60.0, 1e3), tries=tries)
     runs = []
     via = job.get("via", "direct")
     for k, perm in enumerate(perms):
@@ -749,10 +749,10 @@ def mc_jobs(cases, quick, rng):
     for k, c in enumerate(cases):
         n = c["n"]
         if quick:
-            limit = 6 if n <= 3 else 5
+            limit = 6 if n <= 3 else 4
             anchors = [MC_ANCHORS[k % 4]]
         else:
-            limit = 24 if n <= 4 else 10
+            limit = 6 if n <= 3 else (8 if n == 4 else 6)
             anchors = [MC_ANCHORS[k % 4]] if n >= 4 else MC_ANCHORS
         for a in anchors:
             perms = _perms(n, limit, rng)
@@ -882,7 +882,7 @@ def drive_and_validate(ctx, jobs, batch):
             stats["samples"].append({k: rec[k] for k in ("id", "n", "xy", "E", "flux", "adj") if k in rec}
                                     | {"run1": rec["runs"][0]})
 
-    with ThreadPoolExecutor(max_workers=6) as tp, \
+    with ThreadPoolExecutor(max_workers=8) as tp, \
             mp.Pool(16, initializer=_init, initargs=(ctx.workdir,)) as pool:
         buf, weight = [], 0
         order = sorted(jobs, key=lambda j: -j.get("n", 1))          # big ones first
@@ -922,7 +922,7 @@ def run(ctx):
         spec="Spec", constants=consts,
         invariants=["WellPosed", "PartitionThm", "ChainThm", "ComponentsThm", "PermInvariantThm",
                     "LabelsThm", "LabelsPermThm"], deadlock=False), coverage=True)
-    ctx.require_actions(res, ["Group", "Label"], "MC_Regroup")
+    ctx.require_actions(res, ["Pick", "Group", "Label"], "MC_Regroup")
     cases = [p for p in res.printed if "pts" in p]
     uniq = {(tuple(c["pts"]), tuple(c["flux"]), c["E"]): c for c in cases}
     cases = list(uniq.values())
